@@ -92,12 +92,15 @@ def verify_contract(contract, X, canary=True):
     presat_open = False      # some path condition could not be decided within the budget (load): not a verdict
     exits, exit_sat, exit_open = 0, False, False
     # the cheapest witness first: exits with the shortest path condition
-    canaries = sorted([v for v in vcs if v.kind == 'canary'], key=lambda v: sum(len(str(p)) for p in v.pc[:40]))
+    canaries = sorted([v for v in vcs if v.kind == 'canary'], key=lambda v: len(v.pc))
     for vc in canaries + [v for v in vcs if v.kind != 'canary']:
         if vc.kind == 'canary':
             exits += 1
-            if not exit_sat:
-                for budget, seed in ((10000, None), (30000, 7), (core.TIMEOUT_MS * 6, 13)):
+            # a witness is looked for on the exits with the shortest path conditions: a few quick attempts each, then
+            # nothing more (undecided, never "vacuous"); the very first exit gets a patient attempt
+            if not exit_sat and exits <= 5:
+                budgets = ((2000, None),) if exits > 1 else ((4000, None), (4000, 7))
+                for budget, seed in budgets:
                     sc = z3.Solver()
                     sc.set('timeout', budget)
                     if seed is not None:
@@ -111,6 +114,8 @@ def verify_contract(contract, X, canary=True):
                     exit_sat = True
                 elif rc == z3.unknown:
                     exit_open = True
+            elif not exit_sat:
+                exit_open = True
             continue
         if vc.kind == 'vacuity':
             # pre-sat: `False` must be refutable, i.e. the path condition is satisfiable
